@@ -123,6 +123,20 @@ func init() {
 								obs["landsOnInput"] = cb.Status == 302 && cb.Location == text
 							}
 						}
+						if _, plain := c.Req["landsOnInput"]; plain && sfx == "" {
+							// "requested before login": the same path and query asked for WITHOUT a session - the sign-in page the proxy answers
+							// with must carry exactly that as the place to come back to (its hidden rd field is what /start receives)
+							pg := w.do(vpReq{Target: text, Host: reqHost})
+							carried := false
+							for _, tgt := range vpHTMLTargets(string(pg.Body)) {
+								if tgt == text {
+									carried = true
+								}
+							}
+							if v, ok := obs["landsOnInput"].(bool); ok {
+								obs["landsOnInput"] = v && carried
+							}
+						}
 						// form sign-in
 						form := url.Values{"username": {"hpuser"}, "password": {"hppass"}, "rd": {text}}
 						f := w.do(vpReq{Method: "POST", Target: w.prefix() + "/sign_in", Body: form.Encode(), Form: true, Host: reqHost})
